@@ -14,4 +14,4 @@ def run(chk):
 
 
 def replay(chk, path):
-    run(chk)
+    c02.replay(chk, path, prop="C14")
